@@ -378,6 +378,20 @@ public:
     void validateConnections(const ModelPtr &model);
 
     /**
+     * @brief Validate what a resolved imported component brings along.
+     *
+     * Validate the units of the imported model that the imported component and its encapsulated
+     * descendants use, and the equivalences between the variables of those components.
+     *
+     * @param importModel The model the component is imported from.
+     * @param importedComponent The component in @p importModel that is imported.
+     * @param url The URL of the import source.
+     * @param history The history of visited components.
+     * @param modelsVisited The list of visited models.
+     */
+    void validateImportedComponentDependencies(const ModelPtr &importModel, const ComponentPtr &importedComponent, const std::string &url, History &history, std::vector<ModelPtr> &modelsVisited);
+
+    /**
      * @brief Validate the units of the given variables equivalent variables.
      *
      * Validate that the variables that are equivalent to the given variable all
@@ -859,6 +873,69 @@ void Validator::ValidatorImpl::validateComponentTree(const ModelPtr &model, cons
     validateComponent(component, history, modelsVisited);
 }
 
+void Validator::ValidatorImpl::validateImportedComponentDependencies(const ModelPtr &importModel, const ComponentPtr &importedComponent, const std::string &url, History &history, std::vector<ModelPtr> &modelsVisited)
+{
+    // The component and its encapsulated descendants (the ones that are not imports themselves).
+    std::vector<ComponentPtr> components;
+    std::vector<ComponentPtr> pending = {importedComponent};
+    while (!pending.empty()) {
+        auto current = pending.back();
+        pending.pop_back();
+        if (!current->isImport()) {
+            components.push_back(current);
+        }
+        for (size_t i = 0; i < current->componentCount(); ++i) {
+            pending.push_back(current->component(i));
+        }
+    }
+
+    // The units of the imported model that their variables and cn elements use come into the importing model with them.
+    std::vector<UnitsPtr> usedUnits;
+    for (const auto &current : components) {
+        for (const auto &name : unitsNamesUsed(current)) {
+            // A reference that is not an identifier is reported where it is made and, as for unit children, not followed.
+            auto units = isCellmlIdentifier(name) ? importModel->units(name) : nullptr;
+            if ((units != nullptr) && (std::find(usedUnits.begin(), usedUnits.end(), units) == usedUnits.end())) {
+                usedUnits.push_back(units);
+            }
+        }
+    }
+    for (const auto &units : usedUnits) {
+        // Units that another used units refers to are validated together with that one.
+        bool referenced = false;
+        for (const auto &otherUnits : usedUnits) {
+            if (otherUnits != units) {
+                auto required = referencedUnits(importModel, otherUnits);
+                referenced = referenced || (std::find(required.begin(), required.end(), units) != required.end());
+            }
+        }
+        if (!referenced) {
+            validateUnits(units, history, modelsVisited, url);
+        }
+    }
+
+    // The equivalences between their variables come too. A variable that is also equivalent to a variable outside of the
+    // imported encapsulation subtree is left alone: what it needs there is not part of the import.
+    VariableMap interfaceErrorsAlreadyReported;
+    VariableMap equivalentUnitErrorsAlreadyReported;
+    size_t initialIssueCount = mValidator->issueCount();
+    for (const auto &current : components) {
+        for (size_t i = 0; i < current->variableCount(); ++i) {
+            auto variable = current->variable(i);
+            bool inside = variable->equivalentVariableCount() > 0;
+            for (size_t e = 0; inside && (e < variable->equivalentVariableCount()); ++e) {
+                auto equivalentComponent = owningComponent(variable->equivalentVariable(e));
+                inside = std::find(components.begin(), components.end(), equivalentComponent) != components.end();
+            }
+            if (inside) {
+                validateVariableInterface(variable, interfaceErrorsAlreadyReported);
+                validateEquivalenceUnits(importModel, variable, equivalentUnitErrorsAlreadyReported);
+            }
+        }
+    }
+    handleErrorsFromImports(initialIssueCount, false, "Component", importedComponent->name(), history, importedComponent, nullptr);
+}
+
 void Validator::ValidatorImpl::validateImportSource(const ImportSourcePtr &importSource, const std::string &importName, const std::string &importType)
 {
     std::string url = importSource->url();
@@ -1045,6 +1122,7 @@ void Validator::ValidatorImpl::validateComponent(const ComponentPtr &component, 
                             descendants.push_back(child);
                         }
                     }
+                    validateImportedComponentDependencies(importModel, importedComponent, component->importSource()->url(), history, modelsVisited);
                     modelsVisited.pop_back();
                 }
                 history.pop_back();
